@@ -141,7 +141,7 @@ where
                     let byte_vec: Vec<u8> = chunk.to_vec();
                     // Convert Vec<u8> to Vec<u16>
                     let u16_vec: Vec<u16> = byte_vec
-                        .chunks(2)
+                        .chunks_exact(2)
                         .map(|chunk| u16::from_le_bytes([chunk[0], chunk[1]]))
                         .collect();
 
